@@ -141,10 +141,9 @@ pub fn normalise(c: &Case) -> Case {
     if c.vhost.is_none() || c.vhost.as_deref() == Some("") {
         c.extra_segments.clear();
     }
+    // an empty extra segment (a trailing slash behind the vhost, "//" further on) is a path
+    // segment like any other: it stays
     for s in c.extra_segments.iter_mut() {
-        if s.is_empty() {
-            s.push('e');
-        }
         fix(s);
     }
     for p in c.params.iter_mut() {
@@ -415,7 +414,7 @@ fn strat(_t: Tier) -> BoxedStrategy<Case> {
         comp(),
         comp(),
         vhost,
-        prop_oneof![6 => Just(Vec::new()), 1 => vec("[a-z]{1,5}", 1..3)],
+        prop_oneof![6 => Just(Vec::new()), 1 => vec("[a-z]{1,5}", 1..3), 1 => vec(prop_oneof![1 => Just(String::new()), 1 => "[a-z]{1,3}".prop_map(|s| s)], 1..3)],
         prop_oneof![2 => Just(Vec::new()), 5 => vec(param, 1..5)],
         prop::bool::weighted(0.4),
     )
@@ -875,7 +874,7 @@ pub fn parts() -> Vec<Box<dyn PartDyn>> {
     vec![
         Box::new(Part::<Case> {
             name: "decode",
-            rule: "URLs assembled from components (scheme amqp/amqps/AMQP/http/amqpx; host absent/localhost/127.0.0.1/example.com/[::1]; port absent or 1-65535; user/password absent or arbitrary Unicode percent-encoded by the harness, RFC 3986 sub-delims (! $ & ' ( ) * + , ; =) written literally in 40 % of the URLs; vhost none, '/', arbitrary encoded; extra path segments; 0-4 query parameters in any order incl. repeated, boundary, empty, negative and non-numeric values, auth_mechanism external/other, unknown keys), decoded through the decode_url hook; oracle: the components the URL was assembled from (defaults per the property), or the set of specific errors the URL's defects allow; plus Connection::open => InsecureUrl for every decodable amqp:// URL; non-trivial = percent-encoded or defaulted component or error case; distinct by case hash",
+            rule: "URLs assembled from components (scheme amqp/amqps/AMQP/http/amqpx; host absent/localhost/127.0.0.1/example.com/[::1]; port absent or 1-65535; user/password absent or arbitrary Unicode percent-encoded by the harness, RFC 3986 sub-delims (! $ & ' ( ) * + , ; =) written literally in 40 % of the URLs; vhost none, '/', arbitrary encoded; extra path segments, empty ones (a trailing slash, '//') included; 0-4 query parameters in any order incl. repeated, boundary, empty, negative and non-numeric values, auth_mechanism external/other, unknown keys), decoded through the decode_url hook; oracle: the components the URL was assembled from (defaults per the property), or the set of specific errors the URL's defects allow; plus Connection::open => InsecureUrl for every decodable amqp:// URL; non-trivial = percent-encoded or defaulted component or error case; distinct by case hash",
             cases: |t| t.pick(300_000, 5_000_000),
             threads: 16,
             strategy: strat,
